@@ -32,3 +32,35 @@ pub proof fn lemma_mod_restrict(a: int, b: int, k: nat)
 pub proof fn pow2_split(k: nat) requires k <= 64 ensures B() == pow2(k) * pow2((64 - k) as nat)
 { pow2_64(); pow2_add(k, (64 - k) as nat); }
 
+
+pub open spec fn minv(i: int) -> nat { if i <= 0 { 1 } else if i + 2 <= 64 { (i + 2) as nat } else { 64 } }
+/// odd e: e^2 = 1 (mod 8)
+pub proof fn lemma_odd_square(e: int)
+    requires (e - 1) % 2 == 0
+    ensures (e * e - 1) % 8 == 0
+{
+    let t = (e - 1) / 2;
+    assert(e == 2 * t + 1);
+    // t (t + 1) is even
+    let u = t * (t + 1);
+    assert(u % 2 == 0) by {
+        if t % 2 == 0 { let h = t / 2; assert(t == 2 * h); assert(t * (t + 1) == 2 * (h * (t + 1))) by(nonlinear_arith) requires t == 2 * h; }
+        else { let h = (t + 1) / 2; assert(t + 1 == 2 * h); assert(t * (t + 1) == 2 * (t * h)) by(nonlinear_arith) requires t + 1 == 2 * h; }
+    }
+    let w = u / 2;
+    assert(u == 2 * w);
+    assert(e * e - 1 == 8 * w) by(nonlinear_arith) requires e == 2 * t + 1, t * (t + 1) == 2 * w;
+}
+/// a multiple of 2^a is a multiple of 2^b for b <= a
+pub proof fn lemma_pow2_divides(x: int, a: nat, b: nat)
+    requires b <= a, x % (pow2(a) as int) == 0
+    ensures x % (pow2(b) as int) == 0
+{
+    pow2_add(b, (a - b) as nat); pow2_pos(a); pow2_pos(b);
+    let pa = pow2(a) as int; let pb = pow2(b) as int; let c = pow2((a - b) as nat) as int;
+    vstd::arithmetic::div_mod::lemma_fundamental_div_mod(x, pa);
+    let q = x / pa;
+    assert(x == pb * (c * q)) by(nonlinear_arith) requires x == pa * q, pa == pb * c;
+    vstd::arithmetic::div_mod::lemma_mod_multiples_basic(c * q, pb);
+    assert(pb * (c * q) == (c * q) * pb) by(nonlinear_arith);
+}
